@@ -164,9 +164,30 @@ def rows_class(rows):
 
 # ------------------------------------------------------------------ real object access (public API only)
 
+_WARM = [False]
+
+
+def _warm_up():
+    """Process history: before anything else a Charge of ANOTHER geometry (same rows x cols, other pixel sizes) does an
+    array <-> cluster conversion in this process.  Anything memoised per shape instead of per geometry (seeded variant
+    C14_4: pixel-centre positions cached by (rows, cols)) then corrupts the search on the real geometry."""
+    if _WARM[0]:
+        return
+    _WARM[0] = True
+    from pyxel.data_structure import Charge
+
+    for pv, ph in ((PV * 4.0, PH * 8.0), (PV / 4.0, PH / 2.0)):
+        c = Charge(mk.geometry("ccd", ROWS, COLS, pixel_vert_size=pv, pixel_horz_size=ph))
+        c.add_charge_array(np.ones((ROWS, COLS)))
+        add_clusters(c, [(1.0, pv * 0.5, ph * 0.5)])
+        np.asarray(c.array)
+        c.frame
+
+
 def new_charge():
     from pyxel.data_structure import Charge
 
+    _warm_up()
     return Charge(mk.geometry("ccd", ROWS, COLS, pixel_vert_size=PV, pixel_horz_size=PH))
 
 
@@ -223,11 +244,12 @@ class Obs:
 
 
 class State:
-    __slots__ = ("real", "twin", "acc", "obs", "tobs", "n", "rsw")
+    __slots__ = ("real", "twin", "acc", "obs", "tobs", "n", "rsw", "flags")
 
-    def __init__(self, real, twin, acc, obs, tobs, n, rsw=False):
+    def __init__(self, real, twin, acc, obs, tobs, n, rsw=False, flags=()):
         self.real, self.twin, self.acc, self.obs, self.tobs, self.n = real, twin, acc, obs, tobs, n
         self.rsw = rsw              # "read since the last write": abstraction of hidden cache state (see canon)
+        self.flags = flags          # which kinds of operation happened since the last reset (hidden counters, see canon)
 
 
 BASE_OPS = [["read", "array"], ["read", "frame"], ["arr", "ones"], ["empty"], ["rm", "all"], ["arr", "single"],
@@ -291,7 +313,9 @@ class Model:
         # The observable state alone is NOT a sound key: an implementation may cache the converted array, so two
         # histories with the same observable state but a different "was it read since the last modification" have
         # different futures (seeded variant C14_1: read, then partial removal).  That bit is part of the key.
-        return (st.obs.key, None if st.tobs is None else st.tobs.key, st.rsw)
+        # ... and so is the set of operation kinds applied since the last reset: an emptied frame that once held
+        # clusters is not the initial state (seeded variant C14_3 used the id counter as "never had clusters").
+        return (st.obs.key, None if st.tobs is None else st.tobs.key, st.rsw, st.flags)
 
     def cluster_rows(self, op):
         return [(self.numbers[n], POSITIONS[p][0], POSITIONS[p][1]) for n, p in op[1]]
@@ -470,7 +494,8 @@ class Model:
                 f"but {tobs.describe()} when they were not")
         if not acc_defined and obs.arr is not None:
             acc = obs.arr.copy()
-        return State(real, twin, acc, obs, tobs, st.n + 1, rsw=(name == "read")), viols
+        flags = () if name == "empty" else (st.flags if name == "read" else tuple(sorted(set(st.flags) | {name})))
+        return State(real, twin, acc, obs, tobs, st.n + 1, rsw=(name == "read"), flags=flags), viols
 
 
 # ------------------------------------------------------------------ JIT conformance (separate interpreter)
